@@ -188,9 +188,7 @@ func BuildHistory(evs []Ev, ex int) *History {
 				jpOn = true
 			}
 		case evDB:
-			if e.Name == "Snapshot" {
-				snapSeq, snapLogs = e.Seq, int(e.N2)
-			}
+			// (rollback scopes start at the issuing instruction, not at the system's own Snapshot)
 		case evStart, evEnter:
 			f := &Frame{Ex: ex, Tx: tx, Top: e.K == evStart, Typ: e.Typ, Create: e.Create, From: e.From, To: e.To, In: e.In, Gas: e.Gas,
 				Value: e.Value, EnterSeq: e.Seq, ExitSeq: -1, CodeLen: int(e.N), IsPre: e.N2 == 1, JPOn: jpOn, SnapSeq: snapSeq, SnapLogs: snapLogs,
@@ -288,6 +286,7 @@ func BuildHistory(evs []Ev, ex int) *History {
 				delete(lastJournal, e.Depth)
 			}
 			if e.K == evStep && e.Err == "" && isCallOp(e.Op) {
+				snapSeq, snapLogs = e.Seq, 0
 				a := &Attempt{Ex: ex, Tx: tx, Op: e.Op, Caller: e.Self, StepSeq: e.Seq, StepGas: e.Gas, StepCost: e.Cost, Depth: e.Depth, Node: -1,
 					InAspect: aspectDepth > 0, pc: e.PC}
 				st := e.Stack
@@ -342,6 +341,9 @@ func BuildHistory(evs []Ev, ex int) *History {
 				f.AspOut = append(f.AspOut, e)
 			}
 		case evHost:
+			if e.Name == "top" || e.Name == "staticCall" {
+				snapSeq, snapLogs = e.Seq, 0
+			}
 			if e.Name == "top" {
 				// harness announces a top-level entry: it is a recorded attempt when call/create
 				a := &Attempt{Ex: ex, Tx: tx, Top: true, Op: byte(e.N), Caller: e.From, Target: e.To, Input: e.Val, Node: -1}
